@@ -38,6 +38,32 @@ func factsC10() {
 			"activity.go harness.ConsumeEvent: event.ForwardEvent is called only under a test of node.active")
 	}
 
+	// activeSetBeforeNextAction: in harness.run, does `atomic.StoreInt32(&node.active, 1)` precede the call of
+	// node.activity.NextAction (which queues the activity's first message)?
+	{
+		val := ""
+		if fd := funcDecl(act, "harness", "run"); fd != nil && fd.Body != nil {
+			call := callPos(fd.Body, "activity.NextAction")
+			var store token.Pos
+			ast.Inspect(fd.Body, func(n ast.Node) bool {
+				c, ok := n.(*ast.CallExpr)
+				if !ok || store != token.NoPos {
+					return true
+				}
+				if strings.HasSuffix(exprString(c.Fun), "StoreInt32") && len(c.Args) == 2 &&
+					strings.HasSuffix(exprString(c.Args[0]), "node.active") && exprString(c.Args[1]) == "1" {
+					store = c.Pos()
+				}
+				return true
+			})
+			if call != token.NoPos && store != token.NoPos {
+				val = boolLit(store < call)
+			}
+		}
+		add("C10", "activeSetBeforeNextAction", "Bool", val,
+			"activity.go harness.run: atomic.StoreInt32(&node.active, 1) precedes node.activity.NextAction (true) / follows it (false)")
+	}
+
 	// cancellationOnce / listenersShareWaitGroup: both read from newHarness.
 	{
 		once, share := "", ""
